@@ -37,13 +37,16 @@ CONSTANTS Kinds,      \* subset of {"c","g","h"}
           MaxDelta,   \* counters/gauges are updated by 0..MaxDelta, histograms by exactly one sample
           MaxSteps,   \* bounds for exhaustive runs (guards of the actions; huge for trace validation):
           MaxNow,     \*   timeline length, clock value, generation of a series
-          MaxGen
+          MaxGen,
+          GenOrderedCompare, \* FALSE: `*last_gen == gen` as coded; TRUE: "changed iff gen > last_gen" (witness TLC must reject)
+          Observers   \* extra exporters whose observation may OVERLAP others: snapshot now, should_store later ({} = none)
 
 None == -1
 Series == Kinds \X Keys
 KindOrder == <<"c", "g", "h">>          \* sweep order of get_recent_metrics
 Absent == [present |-> FALSE, gen |-> 0, val |-> 0]
 NoEntry == [gen |-> None, last |-> None]
+NoSlot == [on |-> FALSE, s |-> <<"", 0>>, live |-> FALSE, gen |-> 0]
 RKeys == IF KeyByKind THEN Series ELSE Keys
 RK(s) == IF KeyByKind THEN s ELSE s[2]   \* the key under which the recency map files series s
 
@@ -57,10 +60,13 @@ VARIABLES
   firstObs,  \* series -> time of the earliest observation that saw the series at its current generation
              \*           (None: current generation not yet observed).  The property is stated over this.
   everObs,   \* series whose observation has consulted the recency map so far
+  staleRec,  \* recency keys whose entry outlived the series it was written for (registry-side removal behind
+             \* Recency's back) or was written by an observer holding the handle of a series that no longer exists
+  slot,      \* (not history) Observers -> the handle snapshot an overlapping observer holds: [on, s, live, gen]
   obs,       \* outcomes of the observations made by the last action (set of records)
   steps
 
-vars == <<now, mask, timeout, reg, rec, firstObs, everObs, obs, steps>>
+vars == <<now, mask, timeout, reg, rec, firstObs, everObs, staleRec, slot, obs, steps>>
 
 Covered(k) == timeout # None /\ k \in mask
 Deltas(k) == IF k = "h" THEN {1} ELSE 0..MaxDelta
@@ -72,6 +78,7 @@ InitWith(m, t) ==
   /\ rec = [r \in RKeys |-> NoEntry]
   /\ firstObs = [s \in Series |-> None]
   /\ everObs = {} /\ obs = {} /\ steps = 0
+  /\ staleRec = {} /\ slot = [o \in Observers |-> NoSlot]
 Init == \E m \in Masks, t \in Timeouts : InitWith(m, t)
 
 (***************************************************************************)
@@ -85,7 +92,7 @@ Init == \E m \in Masks, t \in Timeouts : InitWith(m, t)
 (***************************************************************************)
 Decide(e, g) ==
   IF e = NoEntry THEN [del |-> FALSE, e |-> [gen |-> g, last |-> now]]
-  ELSE IF e.gen = g
+  ELSE IF (IF GenOrderedCompare THEN ~(g > e.gen) ELSE e.gen = g)
        THEN IF now - e.last > timeout THEN [del |-> TRUE, e |-> NoEntry]
                                       ELSE [del |-> FALSE, e |-> e]
        ELSE [del |-> FALSE, e |-> [gen |-> g, last |-> now]]
@@ -103,26 +110,44 @@ OwnEntry(fo, g) == IF fo = None THEN NoEntry ELSE [gen |-> g, last |-> fo]
 \* key wrote (inserted / refreshed) or consumed (removed) the shared entry.
 Interf(r, fo, s, g) == Covered(s[1]) /\ Eff(r[RK(s)], g) # OwnEntry(fo[s], g)
 
-\* One observation as a function on the mutable part of the state.
-ObserveSt(st, s) ==
+\* One should_store call as a function on the mutable part of the state: for series s, with generation g
+\* read from the observer's handle.  live = the handle is the registered one (always so for the sequential
+\* sweep); ~live = an overlapping observer whose snapshot predates a drop / removal of the series: delete_op
+\* then hits whatever is registered under the key now (or nothing: it returns false and nothing happens).
+ObserveWith(st, s, g, live) ==
   LET k == s[1]
-      g == st.reg[s].gen
-      d == Decide(st.rec[RK(s)], g)             \* what the code does
-      drop == Covered(k) /\ d.del
+      r == RK(s)
+      d == Decide(st.rec[r], g)                 \* what the code does
+      failed == d.del /\ ~st.reg[s].present       \* expired && delete_op(..) = false
+      drop == Covered(k) /\ d.del /\ ~failed
       reg2 == IF drop THEN [st.reg EXCEPT ![s] = Absent] ELSE st.reg
-      rec2 == IF Covered(k) THEN [st.rec EXCEPT ![RK(s)] = d.e] ELSE st.rec
+      rec2 == IF Covered(k) /\ ~failed THEN [st.rec EXCEPT ![r] = d.e] ELSE st.rec
       fo2 == IF drop THEN [st.fo EXCEPT ![s] = None]
-             ELSE IF st.fo[s] = None THEN [st.fo EXCEPT ![s] = now] ELSE st.fo
-      o == [s |-> s, keep |-> ~drop, exp |-> ~ExpectDrop(st.fo[s], k),
-            interf |-> Interf(st.rec, st.fo, s, g),
-            gone |-> (~reg2[s].present /\ rec2[RK(s)] = NoEntry)]
-  IN [reg |-> reg2, rec |-> rec2, fo |-> fo2,
-      ever |-> IF Covered(k) THEN st.ever \cup {s} ELSE st.ever,
+             ELSE IF live /\ st.fo[s] = None THEN [st.fo EXCEPT ![s] = now] ELSE st.fo
+      written == rec2[r] # st.rec[r]
+      \* the entry stops being stale when it is removed or again is what the series' own observations left
+      stale2 == IF rec2[r] = NoEntry THEN st.stale \ {r}
+                ELSE IF live THEN (IF Eff(rec2[r], g) = OwnEntry(fo2[s], g) THEN st.stale \ {r} ELSE st.stale)
+                ELSE (IF written THEN st.stale \cup {r} ELSE st.stale)
+      isStale == r \in st.stale \/ ~live
+      o == [s |-> s, keep |-> ~drop, live |-> live,
+            exp |-> IF live THEN ~ExpectDrop(st.fo[s], k) ELSE (IF drop THEN ~ExpectDrop(st.fo[s], k) ELSE TRUE),
+            interf |-> live /\ Interf(st.rec, st.fo, s, g),
+            staleAny |-> Covered(k) /\ isStale,
+            staleEq |-> Covered(k) /\ isStale /\ st.rec[r] # NoEntry /\ st.rec[r].gen = g,
+            gone |-> (~reg2[s].present /\ rec2[r] = NoEntry)]
+      \* handles of a dropped series held by overlapping observers are stale from now on
+      slot2 == [ob \in Observers |->
+                  IF drop /\ st.slot[ob].on /\ st.slot[ob].s = s /\ st.slot[ob].live
+                  THEN [st.slot[ob] EXCEPT !.live = FALSE, !.gen = st.reg[s].gen] ELSE st.slot[ob]]
+  IN [reg |-> reg2, rec |-> rec2, fo |-> fo2, stale |-> stale2, slot |-> slot2,
+      ever |-> IF Covered(k) /\ live THEN st.ever \cup {s} ELSE st.ever,
       out |-> st.out \cup {o}]
+ObserveSt(st, s) == ObserveWith(st, s, st.reg[s].gen, TRUE)
 
-Cur == [reg |-> reg, rec |-> rec, fo |-> firstObs, ever |-> everObs, out |-> {}]
+Cur == [reg |-> reg, rec |-> rec, fo |-> firstObs, ever |-> everObs, stale |-> staleRec, slot |-> slot, out |-> {}]
 Commit(st) == /\ reg' = st.reg /\ rec' = st.rec /\ firstObs' = st.fo
-              /\ everObs' = st.ever /\ obs' = st.out
+              /\ everObs' = st.ever /\ obs' = st.out /\ staleRec' = st.stale /\ slot' = st.slot
               /\ UNCHANGED <<now, mask, timeout>>
 
 KindSeq == SelectSeq(KindOrder, LAMBDA k : k \in Kinds)
@@ -138,20 +163,20 @@ Register(s) ==              \* get_or_create with an operation that does not tou
   /\ steps < MaxSteps
   /\ reg' = IF reg[s].present THEN reg ELSE [reg EXCEPT ![s] = [present |-> TRUE, gen |-> 0, val |-> 0]]
   /\ obs' = {} /\ steps' = steps + 1
-  /\ UNCHANGED <<now, mask, timeout, rec, firstObs, everObs>>
+  /\ UNCHANGED <<now, mask, timeout, rec, firstObs, everObs, staleRec, slot>>
 
 Update(s, d) ==             \* get_or_create + one handle operation (with_increment)
   /\ steps < MaxSteps /\ reg[s].gen < MaxGen
   /\ reg' = [reg EXCEPT ![s] = [present |-> TRUE, gen |-> reg[s].gen + 1, val |-> reg[s].val + d]]
   /\ firstObs' = [firstObs EXCEPT ![s] = None]
   /\ obs' = {} /\ steps' = steps + 1
-  /\ UNCHANGED <<now, mask, timeout, rec, everObs>>
+  /\ UNCHANGED <<now, mask, timeout, rec, everObs, staleRec, slot>>
 
 Tick(d) ==
   /\ steps < MaxSteps /\ now + d <= MaxNow
   /\ now' = now + d
   /\ obs' = {} /\ steps' = steps + 1
-  /\ UNCHANGED <<mask, timeout, reg, rec, firstObs, everObs>>
+  /\ UNCHANGED <<mask, timeout, reg, rec, firstObs, everObs, staleRec, slot>>
 
 Observe(s) ==
   /\ steps < MaxSteps
@@ -164,6 +189,34 @@ Render ==
   /\ Commit(RenderSt(Cur))
   /\ steps' = steps + 1
 
+\* Registry-side removal behind Recency's back: Registry::delete_<kind>(key), retain_<kind>s dropping the
+\* key, or clear() (SS = everything registered).  The recency entries stay.
+RemoveSet(SS) ==
+  /\ steps < MaxSteps
+  /\ reg' = [s \in Series |-> IF s \in SS THEN Absent ELSE reg[s]]
+  /\ firstObs' = [s \in Series |-> IF s \in SS THEN None ELSE firstObs[s]]
+  /\ staleRec' = staleRec \cup {RK(s) : s \in {x \in SS : reg[x].present /\ rec[RK(x)] # NoEntry}}
+  /\ slot' = [ob \in Observers |->
+                IF slot[ob].on /\ slot[ob].live /\ slot[ob].s \in SS /\ reg[slot[ob].s].present
+                THEN [slot[ob] EXCEPT !.live = FALSE, !.gen = reg[slot[ob].s].gen] ELSE slot[ob]]
+  /\ obs' = {} /\ steps' = steps + 1
+  /\ UNCHANGED <<now, mask, timeout, rec, everObs>>
+RegRemove(s) == reg[s].present /\ RemoveSet({s})
+
+\* An overlapping observer: takes its snapshot of the handle now ...
+Snap(ob, s) ==
+  /\ steps < MaxSteps /\ reg[s].present /\ ~slot[ob].on
+  /\ slot' = [slot EXCEPT ![ob] = [on |-> TRUE, s |-> s, live |-> TRUE, gen |-> 0]]
+  /\ obs' = {} /\ steps' = steps + 1
+  /\ UNCHANGED <<now, mask, timeout, reg, rec, firstObs, everObs, staleRec>>
+\* ... and runs get_generation() + should_store later, with whatever its handle shows then
+SlotDecide(ob) ==
+  /\ steps < MaxSteps /\ slot[ob].on
+  /\ LET sl == slot[ob]
+         st0 == [Cur EXCEPT !.slot = [slot EXCEPT ![ob] = NoSlot]]
+     IN Commit(ObserveWith(st0, sl.s, IF sl.live THEN reg[sl.s].gen ELSE sl.gen, sl.live))
+  /\ steps' = steps + 1
+
 NewRegister(s) == ~reg[s].present /\ Register(s)   \* (on a registered series Register is a no-op)
 SomeTick == \E d \in TickSet : Tick(d)
 Next ==
@@ -172,6 +225,9 @@ Next ==
   \/ SomeTick
   \/ \E s \in Series : Observe(s)
   \/ Render
+  \/ \E s \in Series : RegRemove(s)
+  \/ \E ob \in Observers : \E s \in Series : Snap(ob, s)
+  \/ \E ob \in Observers : SlotDecide(ob)
 
 Spec == Init /\ [][Next]_vars
 
@@ -185,22 +241,27 @@ TypeOK ==
 
 \* Observe says drop iff covered and unchanged since an observation made more than `timeout` ago
 \* -- unless another kind with the same key wrote or consumed the shared entry (CF12).
-ObserveExact == \A o \in obs : o.keep = o.exp \/ o.interf
+\* CF12c: a stale entry (see staleRec) is matched against the re-created series: equal generation -> a fresh
+\* series is dropped; any generation -> (overlap only) the idle timer of the current series is restarted.
+StaleAllow(o) == (o.keep /\ o.staleAny) \/ (~o.keep /\ o.staleEq)
+ObserveExact == \A o \in obs : o.keep = o.exp \/ o.interf \/ StaleAllow(o)
 \* ... without the allowance (holds for KeyByKind = TRUE; its counterexample for FALSE is the CF12 witness)
-StrictObserveExact == \A o \in obs : o.keep = o.exp
+StrictObserveExact == \A o \in obs : o.keep = o.exp \/ StaleAllow(o)
+\* ... and with no allowance at all (its counterexample is the CF12c witness)
+NoStaleObserveExact == \A o \in obs : o.keep = o.exp
 \* no timeout or masked-out kind: never dropped (no allowance)
 NeverDropUncovered == \A o \in obs : ~Covered(o.s[1]) => o.keep
 \* a drop removes the series from the registry and its entry from the recency map
 DropRemoves == \A o \in obs : ~o.keep => (o.gone /\ ~reg[o.s].present)
 \* a kept series stays registered
-KeepKeeps == \A o \in obs : o.keep => reg[o.s].present
+KeepKeeps == \A o \in obs : (o.keep /\ o.live) => reg[o.s].present
 \* a series that is not registered has no generation, value or history: re-registration starts from zero
 FreshRestart == \A s \in Series : ~reg[s].present => (reg[s] = Absent /\ firstObs[s] = None)
 \* the allowance is exactly "another kind with the same key used the shared entry"
 InterferenceIsCrossKind ==
   \A s \in Series : (reg[s].present /\ Interf(rec, firstObs, s, reg[s].gen)) =>
-     \E s2 \in everObs : s2[2] = s[2] /\ s2[1] # s[1]
-NoInterference == \A s \in Series : reg[s].present => ~Interf(rec, firstObs, s, reg[s].gen)
+     (RK(s) \in staleRec \/ \E s2 \in everObs : s2[2] = s[2] /\ s2[1] # s[1])
+NoInterference == \A s \in Series : (reg[s].present /\ Interf(rec, firstObs, s, reg[s].gen)) => RK(s) \in staleRec
 \* nothing is tracked when recency does not apply
 UncoveredUntracked == (timeout = None \/ mask = {}) => \A r \in RKeys : rec[r] = NoEntry
 =============================================================================
